@@ -571,6 +571,7 @@ def gen_cases(tier, rng):
     # that are no category (NC06d)
     from checks.harness import c05
     cases.extend(c05.typed_regrowth_cases())
+    cases.extend(c05.typed_reject_cases(tier == "quick"))
     cases.extend(c05.typed_cases(rng, 160 if tier == "quick" else 4000, allow_unmatched=True))
     return cases
 
